@@ -1,6 +1,7 @@
 package main
 
 import (
+	"encoding/json"
 	"fmt"
 	"os"
 	"path"
@@ -132,7 +133,9 @@ func viewRoot(ks []Ctor) (root []string, ok bool) {
 	topIsCache := false
 	for _, k := range ks {
 		wasCache := topIsCache
-		topIsCache = k.Kind == "cache"
+		if k.Kind != "enc" { // an encrypted layer hands Filespace(p) to its base: a cache below it still decides
+			topIsCache = k.Kind == "cache"
+		}
 		switch k.Kind {
 		case "child":
 			arg := k.Arg
@@ -397,6 +400,84 @@ func runC03(o *Out, rng *RNG, tier string, replay string) {
 		op.fillJSON()
 		return op
 	}
+	// disk: child view of a disk filespace with a canary tree above the filespace root on the host
+	nDisk := 150
+	if tier == "thorough" {
+		nDisk = 3000
+	}
+	tmp, err := os.MkdirTemp("", "verif-c03-")
+	must(err)
+	defer os.RemoveAll(tmp)
+	caseNo := 0
+	runDisk := func(depth int, op FsOp) {
+		caseNo++
+		base := fmt.Sprintf("%s/case%d", tmp, caseNo)
+		must(os.MkdirAll(base+"/root/a/b", 0o755))
+		must(os.WriteFile(base+"/canary", []byte("host canary"), 0o644))
+		must(os.WriteFile(base+"/root/secret", []byte("TOP"), 0o644))
+		must(os.WriteFile(base+"/root/a/f", []byte("fa"), 0o644))
+		must(os.WriteFile(base+"/root/a/b/g", []byte("deep"), 0o644))
+		droot, err := diskfs.NewFilespace(base + "/root")
+		must(err)
+		var view filesystem.Filespace = droot
+		vroot := []string{}
+		if depth >= 1 {
+			view, err = droot.Filespace("a")
+			must(err)
+			vroot = []string{"a"}
+		}
+		if depth >= 2 {
+			view, err = view.Filespace("b")
+			must(err)
+			vroot = []string{"a", "b"}
+		}
+		hostBefore, _, _ := walkFs(mustDisk(base))
+		out := withTimeout(5*1e9, func() FsOut { return execOn(view, op) })
+		hostAfter, wok, why := walkFs(mustDisk(base))
+		desc := map[string]interface{}{"backend": "disk", "view_root": vroot, "op": op, "out": out.Kind}
+		o.Stat("disk_op_" + op.Kind)
+		if out.Kind == "panic" || out.Kind == "hang" {
+			o.Fail("no_panic", "disk operation "+out.Kind+": "+out.Msg, "panic", desc)
+		}
+		if !wok {
+			o.Fail("walk", "host walk failed: "+why, "walk", desc)
+		} else if msg := outsideUnchanged(hostBefore, hostAfter, append([]string{"root"}, vroot...), true); msg != "" {
+			o.Fail("confined_writes", "disk: "+msg, "confine-disk:"+op.Kind, desc)
+		}
+		o.CountEval(fmt.Sprintf("disk|%v|%s|%s|%s", vroot, op.Kind, op.P, op.Q), out.Kind != "err")
+		os.RemoveAll(base)
+	}
+	if replay != "" { // re-run the one (stack, operation) pair of a replay file
+		b, err := os.ReadFile(replay)
+		must(err)
+		var rp struct {
+			Case struct {
+				Stack    []Ctor   `json:"stack"`
+				Op       FsOp     `json:"op"`
+				Backend  string   `json:"backend"`
+				ViewRoot []string `json:"view_root"`
+			} `json:"case"`
+		}
+		must(json.Unmarshal(b, &rp))
+		op := rp.Case.Op
+		op.Data = make([]byte, len(op.DataI))
+		for i, v := range op.DataI {
+			op.Data[i] = byte(v)
+		}
+		for _, c := range op.ChunkI {
+			ch := make([]byte, len(c))
+			for i, v := range c {
+				ch[i] = byte(v)
+			}
+			op.Chunks = append(op.Chunks, ch)
+		}
+		if rp.Case.Backend == "disk" {
+			runDisk(len(rp.Case.ViewRoot), op)
+		} else {
+			runOne(rp.Case.Stack, op, true)
+		}
+		return
+	}
 	climbers := []string{"..", "../a", "a/../..", "a/../../b", "/..", "/../a", "../..", "./..", "a/./../..", "../a/b/g",
 		"b/../../secret", "../secret", "/../secret", "../../secret", "a/b/../../../secret", ".", "", "/", "a/..", "b/..", "../a/f", "e/../../f",
 		"g", "./g", "b/g", "f", "b/../f", "e", "b/e", "x/../g", "/g", "g/", "b/e/../g", "new", "new/sub", "b/new"}
@@ -465,58 +546,62 @@ func runC03(o *Out, rng *RNG, tier string, replay string) {
 		kind := kinds[r.Intn(len(kinds))]
 		runOne(ks, mkOp(kind, mk(), mk()), true)
 	}
-	// disk: child view of a disk filespace with a canary tree above the filespace root on the host
-	nDisk := 150
-	if tier == "thorough" {
-		nDisk = 3000
+	// every operation on every climbing-prone path, at view depth 0, 1 and 2; the other argument of a
+	// copy names an existing file of that view (a copy that checks its source first gets that far)
+	existing := []string{"secret", "f", "g"}
+	diskClimbers := climbers
+	if tier != "thorough" {
+		diskClimbers = climbers[:24]
 	}
-	tmp, err := os.MkdirTemp("", "verif-c03-")
-	must(err)
-	defer os.RemoveAll(tmp)
-	for i := 0; i < nDisk; i++ {
-		r := rng.Fork()
-		base := fmt.Sprintf("%s/case%d", tmp, i)
-		must(os.MkdirAll(base+"/root/a/b", 0o755))
-		must(os.WriteFile(base+"/canary", []byte("host canary"), 0o644))
-		must(os.WriteFile(base+"/root/secret", []byte("TOP"), 0o644))
-		must(os.WriteFile(base+"/root/a/f", []byte("fa"), 0o644))
-		must(os.WriteFile(base+"/root/a/b/g", []byte("deep"), 0o644))
-		droot, err := diskfs.NewFilespace(base + "/root")
-		must(err)
-		var view filesystem.Filespace = droot
-		vroot := []string{}
-		if r.Chance(70) {
-			view, err = droot.Filespace("a")
-			must(err)
-			vroot = []string{"a"}
-			if r.Chance(40) {
-				view, err = view.Filespace("b")
-				must(err)
-				vroot = []string{"a", "b"}
+	for depth := 0; depth <= 2; depth++ {
+		for _, p := range append(append([]string{}, diskClimbers...), "../x/y", "../../x/y", "a/../../x/y", "/../x/y/z") {
+			for _, kind := range kinds {
+				if kind == "Copy" || kind == "CopyDir" || kind == "CopyFile" {
+					runDisk(depth, mkOp(kind, p, existing[depth]))
+					runDisk(depth, mkOp(kind, existing[depth], p))
+					if kind != "CopyFile" {
+						runDisk(depth, mkOp(kind, map[int]string{0: "a", 1: "b", 2: "."}[depth], p))
+					}
+				} else {
+					runDisk(depth, mkOp(kind, p, ""))
+				}
 			}
 		}
-		hostBefore, _, _ := walkFs(mustDisk(base))
+	}
+	o.Extra["disk_exhaustive_runs"] = caseNo
+	dsegs := []string{"a", "b", ".", "..", "", "f", "g", "x", "secret"}
+	for i := 0; i < nDisk; i++ {
+		r := rng.Fork()
+		depth := 0
+		if r.Chance(70) {
+			depth = 1
+			if r.Chance(40) {
+				depth = 2
+			}
+		}
+		mk := func() string {
+			if r.Chance(40) {
+				return paths[r.Intn(len(paths))]
+			}
+			n := 1 + r.Intn(5)
+			parts := make([]string, n)
+			for j := range parts {
+				parts[j] = dsegs[r.Intn(len(dsegs))]
+			}
+			s := strings.Join(parts, "/")
+			if r.Chance(15) {
+				s = "/" + s
+			}
+			return s
+		}
 		kind := kinds[r.Intn(len(kinds))]
-		p := paths[r.Intn(len(paths))]
-		q := paths[r.Intn(len(paths))]
-		if r.Chance(50) {
-			q = "g"
+		p, q := mk(), mk()
+		if r.Chance(40) {
+			q = existing[depth]
+		} else if r.Chance(40) {
+			p = existing[depth]
 		}
-		op := mkOp(kind, p, q)
-		out := withTimeout(5*1e9, func() FsOut { return execOn(view, op) })
-		hostAfter, wok, why := walkFs(mustDisk(base))
-		desc := map[string]interface{}{"backend": "disk", "view_root": vroot, "op": op, "out": out.Kind}
-		o.Stat("disk_op_" + op.Kind)
-		if out.Kind == "panic" || out.Kind == "hang" {
-			o.Fail("no_panic", "disk operation "+out.Kind+": "+out.Msg, "panic", desc)
-		}
-		if !wok {
-			o.Fail("walk", "host walk failed: "+why, "walk", desc)
-		} else if msg := outsideUnchanged(hostBefore, hostAfter, append([]string{"root"}, vroot...), true); msg != "" {
-			o.Fail("confined_writes", "disk: "+msg, "confine-disk:"+op.Kind, desc)
-		}
-		o.CountEval(fmt.Sprintf("disk|%v|%s|%s|%s", vroot, kind, p, q), out.Kind != "err")
-		os.RemoveAll(base)
+		runDisk(depth, mkOp(kind, p, q))
 	}
 }
 
